@@ -64,7 +64,9 @@ type Ev struct {
 	Cost     uint64
 	Depth    int
 	Err      string
-	Stack    []uint256.Int // bottom..top
+	Stack    []uint256.Int // bottom..top; only the top stackKeep items (see keepStack)
+	StackLen int
+	StackH   uint64
 	MemLen   int
 	MemH     uint64
 	RDataLen int
@@ -114,17 +116,32 @@ func bigStr(v *big.Int) string {
 	return v.String()
 }
 
+// keepStack records the stack of a step: its depth, a hash over all of it, and a copy of the
+// top stackKeep items (enough for every operand any oracle looks at). A full copy of a
+// 1024-item stack at every step of a loop is 32 KiB per event.
+const stackKeep = 40
+
+func (e *Ev) keepStack(stack []uint256.Int) {
+	e.StackLen = len(stack)
+	sh := fnv.New64a()
+	for i := range stack {
+		b := stack[i].Bytes32()
+		sh.Write(b[:])
+	}
+	e.StackH = sh.Sum64()
+	top := stack
+	if len(top) > stackKeep {
+		top = top[len(top)-stackKeep:]
+	}
+	e.Stack = append([]uint256.Int{}, top...)
+}
+
 // Render is the canonical text of an event; the run digest is the SHA-256 over it.
 func (e *Ev) Render() string {
 	switch e.K {
 	case evStep, evFault:
-		sh := fnv.New64a()
-		for i := range e.Stack {
-			b := e.Stack[i].Bytes32()
-			sh.Write(b[:])
-		}
 		return fmt.Sprintf("%d %d %s pc=%d op=%02x gas=%d cost=%d d=%d err=%q st=%d/%x mem=%d/%x rd=%d/%x",
-			e.Seq, e.Ex, e.K, e.PC, e.Op, e.Gas, e.Cost, e.Depth, e.Err, len(e.Stack), sh.Sum64(), e.MemLen, e.MemH, e.RDataLen, e.RDataH)
+			e.Seq, e.Ex, e.K, e.PC, e.Op, e.Gas, e.Cost, e.Depth, e.Err, e.StackLen, e.StackH, e.MemLen, e.MemH, e.RDataLen, e.RDataH)
 	case evEnter, evStart:
 		return fmt.Sprintf("%d %d %s typ=%02x from=%x to=%x create=%v in=%d/%x gas=%d val=%s",
 			e.Seq, e.Ex, e.K, e.Typ, e.From, e.To, e.Create, len(e.In), h64(e.In), e.Gas, bigStr(e.Value))
@@ -299,7 +316,7 @@ func (r *SutRec) step(k evKind, pc uint64, op byte, gas, cost uint64, stack []ui
 	self, codeAddr, caller common.Address) {
 	e := Ev{Ex: r.Ex, K: k, PC: pc, Op: op, Gas: gas, Cost: cost, Depth: depth, Err: errStr(err), MemLen: len(mem)}
 	if !r.Light {
-		e.Stack = append([]uint256.Int{}, stack...)
+		e.keepStack(stack)
 		e.MemH = h64(mem)
 		e.RDataLen = len(rData)
 		e.RDataH = h64(rData)
@@ -422,7 +439,7 @@ func (r *RefRec) CaptureExit(output []byte, gasUsed uint64, err error) {
 func (r *RefRec) step(k evKind, pc uint64, op byte, gas, cost uint64, scope *evm.ScopeContext, rData []byte, depth int, err error) {
 	mem := scope.Memory.Data()
 	e := Ev{Ex: r.Ex, K: k, PC: pc, Op: op, Gas: gas, Cost: cost, Depth: depth, Err: errStr(err)}
-	e.Stack = append([]uint256.Int{}, scope.Stack.Data()...)
+	e.keepStack(scope.Stack.Data())
 	e.MemLen = len(mem)
 	e.MemH = h64(mem)
 	e.RDataLen = len(rData)
